@@ -27,16 +27,21 @@ func runC08(c *Ctx) {
 	c.equalityReadsDataOnly("C08.2")
 	c.revisionChoice()
 	c.createLoop()
+	// the revision a rollback re-uses (and every revision this reconcile chose) survives history truncation:
+	// the truncation rules of C13 (live set seeded with the computed current and update revisions,
+	// only non-live revisions beyond the limit are deleted)
+	for _, s := range revisionDeleteSites(c) {
+		c.truncate(s)
+	}
 	if r := c.ReconcileRoles(); r != nil {
 		n := 0
-		ast.Inspect(r.FI.Decl.Body, func(x ast.Node) bool {
-			if as, ok := x.(*ast.AssignStmt); ok && len(as.Lhs) == 1 && isStatusField(r.FI.Pkg.TypesInfo, as.Lhs[0], "UpdateRevision") {
+		for _, fs := range fieldStores(r.FI.Pkg.TypesInfo, r.FI.Decl.Body) {
+			if fs.Field == "UpdateRevision" && isNamed(fs.Owner, load.APIPkg, "StatefulSetStatus") {
 				n++
-				c.Check(r.Fn.Term(as.Rhs[0]).Key() == c.WantTerm(r.Fn, as.Pos(), "$1.Name", r.UpdRev).Key(), "C08.5-update-revision-source", r.FI.Obj.Name()+": "+types.ExprString(as.Lhs[0]), as.Pos(),
+				c.Check(r.Fn.Term(fs.Rhs).Key() == c.WantTerm(r.Fn, fs.Node.Pos(), "$1.Name", r.UpdRev).Key(), "C08.5-update-revision-source", r.FI.Obj.Name()+": "+types.ExprString(fs.Base)+"."+fs.Field, fs.Node.Pos(),
 					"assigned from the chosen update revision's name", "status.updateRevision is assigned from something else")
 			}
-			return true
-		})
+		}
 		c.Floor("C08.5-update-revision-assignments", n, 1)
 	}
 }
@@ -405,11 +410,12 @@ func (c *Ctx) revisionChoice() {
 			want := c.Want(fn, call.Pos(), "len(k8s.FindEqualRevisions($1, $2)) > 0", revs, &ast.Ident{Name: "updateRevision"})
 			_ = want
 			// facts: an equal revision exists and the newest listed revision is not equal to it
-			eq := assignedFromCall(fi, info, rootIdent(call.Args[0]))
+			target := c.resolveAlias(fi, fn, st, call.Args[0])
+			eq := assignedFromCall(fi, info, rootIdent(target))
 			okEq := eq != nil && calleeName(info, eq) == load.K8sPkg+".FindEqualRevisions"
 			c.Check(okEq, "C08.3-rollback-target-is-an-equal-revision", fi.Obj.Name()+": updateControllerRevision target", call.Pos(), "the renumbered revision is one of FindEqualRevisions(...)", "the renumbered revision is not an equal revision")
 			if okEq {
-				lenPos := c.Want(fn, call.Pos(), "len($1) > 0", rootIdent(call.Args[0]))
+				lenPos := c.Want(fn, call.Pos(), "len($1) > 0", rootIdent(target))
 				c.Implies(st, lenPos, "C08.3-rollback-only-with-equal-revision", fi.Obj.Name()+": updateControllerRevision", call.Pos())
 			}
 			// new number: the candidate's Revision (next revision)
